@@ -3,6 +3,7 @@
   (helpers: Lemmas/Text*.lean). Specification: Spec/Text.lean. Model of the engine: Model/TextScan.lean.
 -/
 import YaraModel.Lemmas.TextFinal
+import YaraModel.Lemmas.Base64
 namespace YaraModel.Text
 
 /-- **Nothing can be missed by the index**: for EVERY string, EVERY legal modifier set and xor range, EVERY
@@ -160,3 +161,75 @@ example :
     (pipeline m s buf [(6, 4 + 2), (0, 4 + 1)]).map (·.off) = [0, 6] := by decide
 
 end YaraModel.Text
+
+namespace YaraModel.B64
+open YaraModel.Text
+
+/-- **The three permutations are complete**: whatever precedes and follows the plaintext `s` inside a text that
+    is then base64-encoded (any 64-symbol alphabet), the permutation for `|pre| mod 3` occurs in the encoding,
+    at character index `4·(|pre| / 3)` plus the number of leading characters that depend on `pre`.
+    (For a one-byte string preceded by 3k+1 bytes no character is determined by the string alone — the
+    compiler drops that permutation, and so does the hypothesis.) -/
+theorem b64_alignment (A pre s post : Bytes) (hs : s ≠ []) (h1 : ¬ (pre.length % 3 = 1 ∧ s.length = 1)) :
+    let i := pre.length % 3
+    ((encode A (pre ++ s ++ post)).drop (4 * (pre.length / 3) + (if i = 0 then 0 else i + 1))).take
+      (permutation A s i).length = permutation A s i := by
+  intro i
+  -- peel the full triples of `pre`
+  let q := pre.length / 3
+  have hsplit : pre = pre.take (3 * q) ++ pre.drop (3 * q) := (List.take_append_drop _ _).symm
+  have hlen1 : (pre.take (3 * q)).length = 3 * q := by simp; omega
+  have hlen2 : (pre.drop (3 * q)).length = i := by simp [i, q]; omega
+  have hdrop : (encode A (pre ++ s ++ post)).drop (4 * q) = encode A (pre.drop (3 * q) ++ s ++ post) := by
+    conv => lhs; rw [hsplit]
+    rw [List.append_assoc, List.append_assoc]
+    rw [encode_drop_triples A q _ _ hlen1]
+    simp [List.append_assoc]
+  have hdd : (encode A (pre ++ s ++ post)).drop (4 * (pre.length / 3) + (if i = 0 then 0 else i + 1)) =
+      (encode A (pre.drop (3 * q) ++ s ++ post)).drop (if i = 0 then 0 else i + 1) := by
+    rw [← hdrop, List.drop_drop]
+  rw [hdd]
+  generalize hr : pre.drop (3 * q) = r at hlen2 hdd ⊢
+  have hi3 : i < 3 := Nat.mod_lt _ (by omega)
+  match r, hlen2 with
+  | [], h0 =>
+    have hi0 : i = 0 := by simpa using h0.symm
+    simp only [hi0, if_true, List.drop_zero, List.nil_append]
+    rw [permutation_zero]
+    rw [List.length_take, Nat.min_eq_left (Nat.sub_le _ _)]
+    exact kept0 A s post
+  | [x], h1' =>
+    have hi1 : i = 1 := by simpa using h1'.symm
+    have hslen : s.length ≠ 1 := fun h => h1 ⟨hi1, h⟩
+    match s, hs, hslen with
+    | b :: c :: s2, _, _ =>
+      show ((encode A ([x] ++ (b :: c :: s2) ++ post)).drop (if i = 0 then 0 else i + 1)).take (permutation A (b :: c :: s2) i).length = permutation A (b :: c :: s2) i
+      rw [hi1, permutation_one]
+      simp only [List.cons_append, List.nil_append, encode]
+      simp only [show (if (1 : Nat) = 0 then 0 else 1 + 1) = 2 from rfl, List.drop_succ_cons, List.drop_zero, List.length_cons,
+        List.take_succ_cons]
+      rw [List.length_take, Nat.min_eq_left (Nat.sub_le _ _)]
+      rw [kept0 A s2 post]
+    | [b], _, h => exact absurd rfl h
+  | [x, y], h2 =>
+    have hi2 : i = 2 := by simpa using h2.symm
+    match s, hs with
+    | c :: s1, _ =>
+      show ((encode A ([x, y] ++ (c :: s1) ++ post)).drop (if i = 0 then 0 else i + 1)).take (permutation A (c :: s1) i).length = permutation A (c :: s1) i
+      rw [hi2, permutation_two]
+      simp only [List.cons_append, List.nil_append, encode]
+      simp only [show (if (2 : Nat) = 0 then 0 else 2 + 1) = 3 from rfl, List.drop_succ_cons, List.drop_zero, List.length_cons,
+        List.take_succ_cons]
+      rw [List.length_take, Nat.min_eq_left (Nat.sub_le _ _)]
+      rw [kept0 A s1 post]
+  | _ :: _ :: _ :: _, h3 => simp at h3; omega
+
+
+/-! Non-vacuity: the manual's example — "This program cannot" inside a longer text, one byte before it. -/
+example :
+    let s := "This program cannot".toUTF8.toList
+    let text := "XThis program cannot be run".toUTF8.toList
+    permutation stdAlphabet s 1 = "RoaXMgcHJvZ3JhbSBjYW5ub3".toUTF8.toList ∧
+    ((encode stdAlphabet text).drop 2).take 24 = "RoaXMgcHJvZ3JhbSBjYW5ub3".toUTF8.toList := by decide +kernel
+
+end YaraModel.B64
